@@ -219,7 +219,7 @@ func jobSeq(j *jobCtx) {
 			continue
 		}
 		// (1) exhaustive tour: values {1,2,3}, every index class, argument lists of length 0..2
-		u := &seqUniverse{kind: k, vals: []int{1, 2, 3}, maxLen: 3, argLen: 2, cmps: []string{"nat", "rev", "half"}, huge: true}
+		u := &seqUniverse{kind: k, vals: []int{0, 1, 2}, maxLen: 3, argLen: 2, cmps: []string{"nat", "rev", "half"}, huge: true}
 		if !j.quick() {
 			u.maxLen = 4
 		}
